@@ -8,6 +8,8 @@
 -/
 import Tranp.Lemmas.Block
 import Tranp.Lemmas.BlockParse
+import Tranp.Lemmas.BlockCallers
+import Tranp.Lemmas.BlockTotal
 
 namespace Tranp.C18
 open Tranp Tranp.Block Tranp.Generated.BlockPairs
@@ -245,10 +247,42 @@ example :
         = .ok (['b', 'o', 'o', 'l'], ['b'], ['x', ' ', '=', '=', ' ', 'y']) := by
   decide
 
-/-! ## `parse_bracket` -/
+/-! ## `parse_bracket`, `parse`, `parse_pair` -/
 
-/-- "The first block returned for `name + group + tail` is the whole group" (the block py2cpp uses), for a blank-free
-    name, a bracket-free tail and every fragment inside the group. The former counterexample `f(g(x))+1` is an instance. -/
+/-- `parse_bracket(name + group + tail)` for a blank-free name, a bracket-free tail and every fragment inside the group:
+    exactly `bracketSpec` — the whole group first, then each top-level group of the kind inside it followed by the top-level
+    groups of the kind inside *that* one, in pre-order (`Entry.unders` is two levels deep; groups inside groups of another
+    kind or inside strings are not listed). -/
+theorem bracket_spec (k : BK) (name tail : Str) (inner : Frag)
+    (hname : ∀ c ∈ name, has Frag.special c = false ∧ has [' ', '\n', '\t'] c = false)
+    (htail : ∀ c ∈ tail, has Frag.special c = false) (hi : Frag.Simple inner) :
+    parseBracket (name ++ k.open :: (inner.render ++ k.close :: tail)) [k.open, k.close] = .ok (bracketSpec k inner) :=
+  parseBracket_spec k name tail inner hname htail hi
+
+/-- non-vacuity: inside `a(b(c(d))),[(x)],"(",g(1)(2)` — the fourth level `(d)`, the group inside `[…]` and the `(` in
+    the string are not listed -/
+example :
+    let p1 : Frag := .atom 'a' (.group .par (.atom 'b' (.group .par (.atom 'c' (.group .par (.atom 'd' .nil) .nil)) .nil)) .nil)
+    let p2 : Frag := .group .sq (.group .par (.atom 'x' .nil) .nil) .nil
+    let p3 : Frag := .str .dq ['('] .nil
+    let p4 : Frag := .atom 'g' (.group .par (.atom '1' .nil) (.group .par (.atom '2' .nil) .nil))
+    let inner : Frag := Frag.join ',' [p1, p2, p3, p4]
+    Frag.Simple inner ∧ bracketSpec .par inner
+      = [groupText .par inner, ['(', 'b', '(', 'c', '(', 'd', ')', ')', ')'], ['(', 'c', '(', 'd', ')', ')'], ['(', '1', ')'], ['(', '2', ')']] := by
+  decide
+
+/-- every block `parse_bracket` returns is a whole, balanced group of the kind -/
+theorem bracket_balanced (k : BK) (name tail : Str) (inner : Frag) (blocks : List Str)
+    (hname : ∀ c ∈ name, has Frag.special c = false ∧ has [' ', '\n', '\t'] c = false)
+    (htail : ∀ c ∈ tail, has Frag.special c = false) (hi : Frag.Simple inner)
+    (h : parseBracket (name ++ k.open :: (inner.render ++ k.close :: tail)) [k.open, k.close] = .ok blocks) :
+    ∀ b ∈ blocks, ∃ g : Frag, Frag.Simple g ∧ b = k.open :: (g.render ++ [k.close]) := by
+  rw [bracket_spec k name tail inner hname htail hi] at h
+  injection h with h
+  subst h
+  exact bracketSpec_balanced k inner hi
+
+/-- the first block is the whole group (the block py2cpp uses); the former counterexample `f(g(x))+1` is an instance -/
 def bracket_first_statement : Prop :=
   ∀ (k : BK) (name tail : Str) (inner : Frag) (blocks : List Str),
     (∀ c ∈ name, has Frag.special c = false ∧ has [' ', '\n', '\t'] c = false) →
@@ -256,8 +290,26 @@ def bracket_first_statement : Prop :=
     parseBracket (name ++ k.open :: (inner.render ++ k.close :: tail)) [k.open, k.close] = .ok blocks →
     blocks.head? = some (k.open :: (inner.render ++ [k.close]))
 
-theorem bracket_first : bracket_first_statement :=
-  fun k name tail inner blocks hn ht hi h => parseBracket_first k name tail inner blocks hn ht hi h
+theorem bracket_first : bracket_first_statement := by
+  intro k name tail inner blocks hn ht hi h
+  rw [bracket_spec k name tail inner hn ht hi] at h
+  injection h with h
+  subst h
+  rfl
+
+/-- "The blocks are ALL groups of the kind, in pre-order" — false: `Entry.unders` stops two levels below the root. -/
+def bracket_all_levels_statement : Prop :=
+  ∀ (k : BK) (name : Str) (inner : Frag), (∀ c ∈ name, has Frag.special c = false ∧ has [' ', '\n', '\t'] c = false) →
+    Frag.Simple inner →
+    parseBracket (name ++ k.open :: (inner.render ++ [k.close])) [k.open, k.close] = .ok (allGroupTexts k (.group k inner .nil))
+
+/-- witness `a(b(c(d)))`: the innermost `(d)` is not listed -/
+theorem bracket_all_levels_counterexample : ¬ bracket_all_levels_statement := by
+  intro h
+  have := h .par ['a'] (.atom 'b' (.group .par (.atom 'c' (.group .par (.atom 'd' (.group .par (.atom 'e' .nil) .nil)) .nil)) .nil))
+    (by decide) (by decide)
+  revert this
+  decide
 
 /-- the old witnesses: `f(g(x))+1`, `a(b(c(d)))`, `f(g[(1)](x), y)` — all blocks are whole groups now -/
 example :
@@ -267,6 +319,114 @@ example :
       = .ok [['(', 'b', '(', 'c', '(', 'd', ')', ')', ')'], ['(', 'c', '(', 'd', ')', ')'], ['(', 'd', ')']] ∧
     parseBracket ['f', '(', 'g', '[', '(', '1', ')', ']', '(', 'x', ')', ',', ' ', 'y', ')'] ['(', ')']
       = .ok [['(', 'g', '[', '(', '1', ')', ']', '(', 'x', ')', ',', ' ', 'y', ')'], ['(', 'x', ')']] := by
+  decide
+
+/-- The loops of `_analyze_entry`, `_parse`, `_parse_block` finish on EVERY text, for every delimiter set (two-character
+    `brackets`): `parse`, `parse_pair` and `parse_bracket` never exhaust the model's fuel. -/
+theorem parse_total (text : Str) (o cl : Char) (D : Str) : parse text [o, cl] D ≠ .error .Fuel :=
+  parse_no_fuel text o cl D
+
+theorem parse_pair_total (text : Str) (o cl : Char) (D : Str) : parsePair text [o, cl] D ≠ .error .Fuel :=
+  parsePair_no_fuel text o cl D
+
+theorem parse_bracket_total (text : Str) (o cl : Char) : parseBracket text [o, cl] ≠ .error .Fuel :=
+  parseBracket_no_fuel text o cl
+
+/-- non-vacuity: adjacent foreign groups `f(1)[2, 3]` … -/
+example :
+    parsePair ['{', 'a', ':', ' ', 'f', '(', '1', ')', '[', '2', ',', ' ', '3', ']', '}'] ['{', '}'] [':']
+      = .ok [(['a'], ['f', '(', '1', ')', '[', '2', ',', ' ', '3', ']'])] := by
+  decide
+
+/-- … `t[A](x, y)` … -/
+example :
+    parsePair ['t', 'a', 'g', '(', 'a', ',', ' ', 't', '[', 'A', ']', '(', 'x', ',', ' ', 'y', ')', ')'] ['(', ')'] [',']
+      = .ok [(['a'], ['t', '[', 'A', ']', '(', 'x', ',', ' ', 'y', ')']), (['x'], ['y'])] := by
+  decide
+
+/-- … and an unbalanced text -/
+example : parsePair ['(', '(', '{', 'a', ','] ['(', ')'] [','] = .ok [] := by decide
+
+/-! ## The production callers (py2cpp.py) -/
+
+/-- split ∘ join = id: a text joined with a delimiter character from fragments without that delimiter at top level (the last
+    one not empty) is split into exactly those fragments, stripped. The law every caller below relies on. -/
+theorem sep_join (d : Char) (hd : has Frag.special d = false) (fs : List Frag) (hne : fs ≠ [])
+    (hs : ∀ f ∈ fs, Frag.Simple f) (hno : ∀ f ∈ fs, Frag.noTop d f = true)
+    (hl : ∀ l, fs.getLast? = some l → l ≠ .nil) :
+    breakSeparator (Frag.join d fs).render [d] = .ok (fs.map fun f => strip f.render) :=
+  breakSeparator_join d hd fs hne hs hno hl
+
+/-- `PatternParser.pluck_func_call_arguments('callee(args)') = 'args'` (also `pluck_cvar_new`, `break_indexer` are
+    `last_block` itself). -/
+theorem caller_pluck (callee args : Frag) (hc : Frag.CleanFor .par callee) (ha : Frag.CleanFor .par args) :
+    pluckFuncCallArguments (callee.render ++ '(' :: (args.render ++ [')'])) = .ok args.render :=
+  pluck_call callee args hc ha
+
+/-- `Py2Cpp.proc_for_range` on `callee(a, b)` / `callee(a, b, c)` with `n` argument nodes: begin, size (, step) are exactly
+    the argument texts, for arbitrary bracket-balanced arguments without top-level comma (strings may hold any bracket but
+    parentheses); a different number of pieces is the `ValueError` of the tuple unpacking. -/
+theorem caller_range (callee : Frag) (fs : List Frag) (n : Nat) (hc : Frag.CleanFor .par callee) (hne : fs ≠ [])
+    (hf : ∀ a ∈ fs, CallArg a) (hl : ∀ l, fs.getLast? = some l → l ≠ .nil) (hn : n ≠ 1) :
+    forRangeVars (callee.render ++ '(' :: ((Frag.join ',' fs).render ++ [')'])) n
+      = if n = 2 then (match fs.map fun f => strip f.render with | [b, s] => .ok (b, s, ['1']) | _ => .error .ValueError)
+        else (match fs.map fun f => strip f.render with | [b, s, st] => .ok (b, s, st) | _ => .error .ValueError) :=
+  forRange_args callee fs n hc hne hf hl hn
+
+/-- non-vacuity: `range(f(1, 2), g[3, 4])` with two argument nodes -/
+example :
+    let callee : Frag := .atom 'r' (.atom 'a' (.atom 'n' (.atom 'g' (.atom 'e' .nil))))
+    let a : Frag := .atom 'f' (.group .par (.atom '1' (.atom ',' (.atom ' ' (.atom '2' .nil)))) .nil)
+    let b : Frag := .atom ' ' (.atom 'g' (.group .sq (.atom '3' (.atom ',' (.atom ' ' (.atom '4' .nil)))) .nil))
+    Frag.CleanFor .par callee ∧ (∀ x ∈ [a, b], CallArg x) ∧
+      forRangeVars (callee.render ++ '(' :: ((Frag.join ',' [a, b]).render ++ [')'])) 2
+        = .ok (['f', '(', '1', ',', ' ', '2', ')'], ['g', '[', '3', ',', ' ', '4', ']'], ['1']) := by
+  decide
+
+/-- `Py2Cpp.on_throw` on `path(a, …)`: `calls = path`, `arguments` = the argument texts. -/
+theorem caller_throw (path : Str) (fs : List Frag) (hp : ∀ x ∈ path, x ≠ '(') (hne : fs ≠ [])
+    (hs : ∀ f ∈ fs, Frag.Simple f) (hno : ∀ f ∈ fs, Frag.noTop ',' f = true)
+    (hl : ∀ l, fs.getLast? = some l → l ≠ .nil) :
+    throwParts (path ++ '(' :: ((Frag.join ',' fs).render ++ [')'])) = .ok (path, fs.map fun f => strip f.render) :=
+  throwParts_call path fs hp hne hs hno hl
+
+example : throwParts ['E', '(', '"', 'a', ',', ' ', ')', '"', ',', ' ', 'f', '(', '1', ',', '2', ')', ')']
+    = .ok (['E'], [['"', 'a', ',', ' ', ')', '"'], ['f', '(', '1', ',', '2', ')']]) := by decide
+
+/-- `Py2Cpp.on_dict_comp` on `{key, value}`: the two texts. -/
+theorem caller_dict_comp (kf vf : Frag) (hk : Frag.Simple kf) (hv : Frag.Simple vf) (hkn : Frag.noTop ',' kf = true)
+    (hvn : Frag.noTop ',' vf = true) (hvne : vf ≠ .nil) :
+    dictCompProjection ('{' :: ((Frag.join ',' [kf, vf]).render ++ ['}'])) = .ok (strip kf.render, strip vf.render) :=
+  dictComp_pair kf vf hk hv hkn hvn hvne
+
+example : dictCompProjection ['{', 'k', ',', ' ', 'f', '(', 'v', ',', ' ', '1', ')', '}'] = .ok (['k'], ['f', '(', 'v', ',', ' ', '1', ')']) := by
+  decide
+
+/-! ## `DecoratorHelper.any` / `DecoratorQuery.any`, `contains` -/
+
+/-- `DecoratorQuery.any(*paths)` keeps exactly the decorators whose path — the text in front of the first `(` — is one of
+    `paths`, in order, and `contains(*paths)` says whether there is one; whenever every decorator parses. -/
+theorem query_any (ds paths : List Str) (h : ∀ d ∈ ds, ∃ r, decoParse d = .ok r) :
+    queryAny ds paths = .ok (ds.filter fun d => paths.contains (pathOf d)) ∧
+    queryContains ds paths = .ok (ds.any fun d => paths.contains (pathOf d)) :=
+  queryAny_filter ds paths h
+
+example : queryAny [['a', '(', 'x', ')'], ['b'], ['a']] [['a']] = .ok [['a', '(', 'x', ')'], ['a']] ∧
+    queryContains [['b'], ['a', '(', ')']] [['a']] = .ok true := by decide
+
+/-! ## multi-character delimiters -/
+
+/-- "The pieces of `break_separator(text, d)` rejoined with `d` give the text up to blanks" for a multi-character `d`:
+    false when occurrences of `d` overlap — after a cut the scan goes on one character later, not behind the delimiter. -/
+def sep_multichar_rejoin_statement : Prop :=
+  ∀ (text d : Str) (pieces : List Str), (∀ c ∈ text ++ d, has Frag.special c = false ∧ c ≠ ' ') → d ≠ [] →
+    breakSeparator text d = .ok pieces → Str.join d pieces = text
+
+/-- witness `a:::b` with `::` → `['a', '', 'b']` -/
+theorem sep_multichar_rejoin_counterexample : ¬ sep_multichar_rejoin_statement := by
+  intro h
+  have := h ['a', ':', ':', ':', 'b'] [':', ':'] [['a'], [], ['b']] (by decide) (by decide) (by decide)
+  revert this
   decide
 
 end Tranp.C18
